@@ -29,6 +29,9 @@
 #include "K_pds_get_bin_value.c"
 #include "K_pds_get_viewgram.c"
 #include "K_pds_get_sinogram.c"
+void K_pds_get_segment_by_view(const struct PD* self, const int segment_num, const int timing_pos);
+#include "K_pds_get_segment_by_sinogram.c"
+#include "K_pds_get_segment_by_view.c"
 int K_pds_set_segment_by_view(const struct PD* self, const int v_segment_num, const int v_timing_pos_num);
 #include "K_pds_set_segment_by_sinogram.c"
 #include "K_pds_set_segment_by_view.c"
@@ -89,6 +92,8 @@ void h_K_pd_get_segment_by_view(void) { struct PD* s; ghosts_loops(); K_pd_get_s
 void h_K_pd_set_related_viewgrams(void) { ghosts_loops(); K_pd_set_related_viewgrams(nondet_int()); }
 void h_K_pd_fill_value(void) { struct PD* s; ghosts_loops(); K_pd_fill_value(s); }
 void h_K_pd_fill_from(void) { struct PD* s; ghosts_loops(); K_pd_fill_from(s); }
+void h_K_pds_get_segment_by_sinogram(void) { struct PD* s; ghosts_read(); K_pds_get_segment_by_sinogram(s, nondet_int(), nondet_int()); }
+void h_K_pds_get_segment_by_view(void) { struct PD* s; ghosts_read(); K_pds_get_segment_by_view(s, nondet_int(), nondet_int()); }
 void h_K_fss_reorder(void)
 {
   g_r = nondet_int(); g_zero = nondet_int(); g_rloc = nondet_int(); g_fss_min_seg = nondet_int(); g_fss_max_seg = nondet_int();
